@@ -29,9 +29,8 @@ import (
 
 func copyHeader(dst, src http.Header) {
 	for k, vv := range src {
-		for _, v := range vv {
-			dst.Add(k, v)
-		}
+		// Keep the spelling of the key, a header rule may have changed it on purpose.
+		dst[k] = append(dst[k], vv...)
 	}
 }
 
